@@ -87,3 +87,26 @@ Theorem c11_signout_race_refuted_at_boundary :
     SignOutRace.store (SignOutRace.run SignOutRace.reliable SignOutRace.init_boundary sched) = Some 1%nat.
 Proof. exact SignOutRaceProofs.signout_race_refuted_at_boundary. Qed.
 Print Assumptions c11_signout_race_refuted_at_boundary.
+
+(* ---- the store client's word is the store's ---- *)
+From V.Lib Require Import Bytes.
+From V.Gen Require Wiring.
+
+(* Every method of the two Redis client wrappers REGENERATED from pkg/sessions/redis/client.go on this run hands the
+   call through in one return statement: the error Manager.Clear sees (and SignOut turns into the error page) is the
+   error the store reported, for the single-node and the cluster client alike.  What the sign-out and store-fault
+   models assume about an operation's error. *)
+Theorem c11_store_client_passes_errors :
+  Wiring.redis_client_methods =
+    [s "*client.Get: return c.Client.Get(ctx, key).Bytes()";
+     s "*client.Set: return c.Client.Set(ctx, key, value, expiration).Err()";
+     s "*client.Del: return c.Client.Del(ctx, key).Err()";
+     s "*client.Lock: return NewLock(c.Client, key)";
+     s "*client.Ping: return c.Client.Ping(ctx).Err()";
+     s "*clusterClient.Get: return c.ClusterClient.Get(ctx, key).Bytes()";
+     s "*clusterClient.Set: return c.ClusterClient.Set(ctx, key, value, expiration).Err()";
+     s "*clusterClient.Del: return c.ClusterClient.Del(ctx, key).Err()";
+     s "*clusterClient.Lock: return NewLock(c.ClusterClient, key)";
+     s "*clusterClient.Ping: return c.ClusterClient.Ping(ctx).Err()"].
+Proof. vm_compute. reflexivity. Qed.
+Print Assumptions c11_store_client_passes_errors.
